@@ -110,7 +110,6 @@ func dispatchFamily(t *testing.T, r *mc.Run) {
 			if x == k && y == k {
 				order := string(cur)
 				fail := dispatchCase(t, attempts, order)
-				r.Add("evaluations", 1)
 				r.Add("dispatcher_cases", 1)
 				r.NonTrivial(fmt.Sprintf("dispatch|%d|%s", attempts, order))
 				if fail != "" {
